@@ -46,6 +46,9 @@ CLAIMS = {
  "C06": ("abstract interpretation of the repo's AST on x and g.x over a polynomial element domain with symbolic parameters and a generic symbolic invariant filter bank (layer(g.x) == g.layer(x) as a polynomial identity)",
          "Decides, as an identity of polynomials in pixels, weights, biases and filter seeds -- hence for every parameter value, initial or trained -- that ConvContract commutes with the generators of B_D (which implies all 8/48 elements) for signatures with unequal channels and pseudo-types, the five bias modes, TORUS/SAME/explicit padding, filter and image dilation, mixed torus flags, D=2,3, and with cyclic shifts on fully toroidal inputs.",
          "Trusted: conv/einsum models; the supplied bank is group-invariant (the generated family is C03's subject); grids are cubic here (non-square transport is C01/C02); the configuration box is finite.", "3/C06"),
+ "C01": ("abstract interpretation of the repo's AST on (g.A, g.C) and (A, C) over a polynomial element domain ((g.A)*(g.C) == g.(A*C) as a bilinear polynomial identity; options travel with their axes)",
+         "Decides, as an identity of bilinear polynomials in a fully symbolic image and a fully symbolic non-invariant filter -- hence for all real images and filters -- that convolution commutes with the generators of B_D (implying all 8/48 elements) with result type (k+k', p+p'), for toroidal wrap, zero SAME, VALID and symmetric explicit padding incl. even-sided filters, filter dilation, image dilation, all torus-flag patterns and non-square images when flags/dilations/paddings travel with their axes, and with cyclic shifts on wrapped axes; convolve_with declares parity p+p'.",
+         "Trusted: conv/pad models; unit stride (as in the statement); the configuration box is finite.", "3/C01"),
 }
 
 NA_REASON = "check not built yet in this session (build in progress); see DESIGN.md section 3 for the planned static rule"
